@@ -274,6 +274,52 @@ def units(w):
                               name=f"{t}[{kind},{'start' if with_start else 'default-start'}]", loops=loops,
                               replay=replay_lang(which + kind)))
 
+    # ---- lists of numbers and strings (<= 3 elements, symbolic-bounded): an occurrence is an element *equal* to the part in the
+    #      language's sense (1 == 1.0), whatever the classes of the two values
+    EKINDS = ("int", "decimal", "string")
+
+    def mk_el(it, kind, name):
+        return {"int": V.int, "decimal": V.dec, "string": V.string}[kind](it, name)
+
+    def lang_eq(a, b):
+        ka, kb = cls_name(a), cls_name(b)
+        num = ("ValueInt", "ValueDecimal")
+        if ka in num and kb in num:
+            za = z3.ToReal(a.fields["value"].z) if ka == "ValueInt" else a.fields["value"].z
+            zb_ = z3.ToReal(b.fields["value"].z) if kb == "ValueInt" else b.fields["value"].z
+            return za == zb_
+        if ka == kb == "ValueString":
+            return a.fields["value"].z == b.fields["value"].z
+        return z3.BoolVal(False)
+
+    def s_findk(which, n):
+        def setup(it):
+            els = [mk_el(it, EKINDS[it.path.choose(3)], f"el{i}") for i in range(n)]
+            part = mk_el(it, EKINDS[it.path.choose(3)], "part")
+            f = fn_obj("FuncFind" if which == "find" else "FuncFindLast")
+            return [f, V.args(it, {"obj": V.list_of(it, els, "l"), "part": part}, ["obj", "part", "key", "start"]), V.env(it), V.pos(it, "cpos")], {}, \
+                {"els": els, "part": part}
+        return setup
+
+    def p_findk(which, n):
+        def post(it, c, o):
+            it.check("post:returns-ValueInt", o.kind == "return" and cls_name(o.value) == "ValueInt")
+            if o.kind != "return":
+                return
+            r = zi(o.value.fields["value"])
+            eqs = [lang_eq(e, c["part"]) for e in c["els"]]
+            order = range(n) if which == "find" else range(n - 1, -1, -1)
+            exp = I(-1)
+            for i in reversed(list(order)):
+                exp = z3.If(eqs[i], I(i), exp)
+            it.check("post:the-first/last-position-holding-a-value-equal-to-the-part(language equality across classes)-or--1", r == exp)
+        return post
+    for which in ("find", "find_last"):
+        for n in (1, 2, 3):
+            t = "functions.py::FuncFind.execute" if which == "find" else "functions.py::FuncFindLast.execute"
+            U.append(Unit(t, s_findk(which, n), p_findk(which, n), name=f"{t}[list of {n} numbers/strings]",
+                          bounded="lists of <= 3 elements (ints, decimals, strings; symbolic payloads)", replay=replay_lang(which + "list")))
+
     # =========================================================== insert_at / delete_at
     def s_ins(it):
         lst, i, v = V.list_sym(it, "l"), V.int(it, "i"), SElem(z3.Int("v"))
@@ -424,7 +470,26 @@ def small_domain(what):
     seqs = ["", "a", "ab", "abc", "abca", "aabab"]
     R = range(-7, 8)
     for s in seqs:
-        for form in ("str", "list"):
+        # form "mixed": a list whose elements are language-equal values of different classes (1 and 1.0) - an occurrence is a
+        # position holding a value *equal* to the part
+        for form in ("str", "list", "mixed"):
+            if form == "mixed":
+                if what not in ("findlist", "find_lastlist") or not s:
+                    continue
+                for ab in ({"a": 1, "b": 1.0, "c": 2}, {"a": 2.0, "b": 1, "c": 2}):
+                    v = [ab[ch] for ch in s]
+                    n = len(v)
+                    for p in (1, 1.0, 2, 2.0, 3.0):
+                        occ = [q for q in range(n) if v[q] == p]
+                        if what == "find_lastlist":
+                            yield f"find_last({lit(v)}, {p})", str(max(occ, default=-1))
+                            for k in range(0, n):
+                                yield f"find_last({lit(v)}, {p}, start = {k})", str(max([q for q in occ if q <= k], default=-1))
+                        else:
+                            for k in range(0, n + 2):
+                                e = min([q for q in occ if q >= k], default=-1)
+                                yield (f"find({lit(v)}, {p}, start = {k})" if k else f"find({lit(v)}, {p})"), str(e)
+                continue
             v = s if form == "str" else [ord(ch) - 96 for ch in s]
             n = len(v)
             if what == "index":
